@@ -26,7 +26,11 @@ CLAIM = {
             "validate_payment_balance refuses incoming + (invoice ? amount + max_routing_fee : 0) < outgoing; the "
             "per-hash operands come from the matching summaries; (R6.3) on restart, new_from_persistence calls "
             "restore_payments for every ready channel, and restore_payments rebuilds incoming from the incoming "
-            "summary and outgoing from the outgoing summary. Does not decide the conservation inequality across "
+            "summary and outgoing from the outgoing summary; (R6.4) the per-channel summaries are conservative: the "
+            "outgoing summary reads the holder's offered and the counterparty's received HTLCs, unions them and keeps "
+            "the *larger* amount per hash; the incoming summary reads the holder's received and the counterparty's "
+            "offered HTLCs, intersects them and keeps the *smaller* amount; summarize_payments adds the parts of one "
+            "hash. Does not decide the conservation inequality across "
             "channels and histories (sums over runtime maps).",
     "note": "non-permissive policy; summaries' min/max view logic (payments_summary) inspected only for slot usage",
     "technique": "static analysis: must-pass-through + provenance slices (slot agreement) + guard scenarios",
@@ -39,6 +43,7 @@ def run(ctx):
     r61(ctx)
     r62(ctx)
     r63(ctx)
+    r64(ctx)
 
 
 def _named(fv, name):
@@ -255,3 +260,61 @@ def r63(ctx):
             a = [render(strip_ref(rv.expr(x))) for x in c.args[1:4]]
             ctx.ob("R6.3", a == ["self.id0", "incoming_sat", "outgoing_sat"], f"{rb.name}/apply-args", f"payment.apply({a})",
                    where=f"{rb.file}:{c.line}", sample=a)
+
+
+def r64(ctx):
+    ctx.rule("R6.4", "per-channel payment summaries are conservative: outgoing = union with max over (holder offered, "
+                     "counterparty received); incoming = intersection with min over (holder received, counterparty offered)")
+    p = ctx.prog
+    spec = {"payments_summary": {"holder": "offered_htlcs", "counterparty": "received_htlcs", "merge": "max", "forbid": "min"},
+            "incoming_payments_summary": {"holder": "received_htlcs", "counterparty": "offered_htlcs", "merge": "min", "forbid": "max"}}
+    for fn, w in spec.items():
+        b = p.fn(f"{ES}::{fn}")
+        fv = fnview(ctx, b, policy=False)
+        cl = p.closures_of(b)
+        # which list each side contributes: the closure mapped over new_<side>_tx.or(current_<side>_commit_info)
+        got = {}
+        for bi, c in b.calls():
+            nm = c.callee.name if c.callee else ""
+            if not nm.endswith("Option::<T>::map") or not c.cls or not c.args:
+                continue
+            recv = render(fv.expr(c.args[0]))
+            side = "holder" if ("new_holder_tx" in recv or "current_holder_commit_info" in recv) else \
+                ("counterparty" if ("new_counterparty_tx" in recv or "current_counterparty_commit_info" in recv) else None)
+            if side is None:
+                continue
+            for cd in c.cls:
+                cb = p.bodies.get(cd.id)
+                if cb is None:
+                    continue
+                for bi2 in range(len(cb.blocks)):
+                    for st in cb.stmts(bi2):
+                        pl = st.rv.place if st.kind == "a" and st.rv.place is not None else None
+                        for pr in (pl.proj if pl is not None else []):
+                            if isinstance(pr, tuple) and pr[0] == "f" and pr[1].endswith("CommitmentInfo2") and pr[2].endswith("_htlcs"):
+                                got.setdefault(side, set()).add(pr[2])
+        for side in ("holder", "counterparty"):
+            ctx.ob("R6.4", got.get(side) == {w[side]}, f"{b.name}/{side}-list",
+                   f"{fn} takes {sorted(got.get(side, []))} from the {side} commitment (expected {w[side]})", where=f"{b.file}:{b.line}",
+                   sample=f"{side} -> {w[side]}")
+        # the merge of the two per-hash amounts
+        cmps = set()
+        for cb in cl:
+            for bi2, c2 in cb.calls():
+                n2 = c2.callee.name if c2.callee else ""
+                if n2.endswith("cmp::max") or n2.endswith("cmp::min") or n2.endswith("Ord::max") or n2.endswith("Ord::min"):
+                    cmps.add("max" if n2.endswith("max") else "min")
+        ctx.ob("R6.4", cmps == {w["merge"]}, f"{b.name}/merge",
+               f"{fn} merges the holder and counterparty amounts of one payment with {sorted(cmps)} (expected {w['merge']}): "
+               + ("the in-flight outgoing amount is under-counted and an invoice can be overpaid" if fn == "payments_summary"
+                  else "the in-flight incoming amount is over-counted and an unbacked payment can pass"),
+               where=f"{b.file}:{b.line}", sample=f"merge = {w['merge']}")
+    # summarize_payments adds the parts
+    sb = p.fn(f"{ES}::summarize_payments")
+    adds = [c for bi, c in sb.calls() if c.callee and ("checked_add" in c.callee.name or "saturating_add" in c.callee.name)]
+    plus = [1 for bi in range(len(sb.blocks)) for st in sb.stmts(bi) if st.kind == "a" and st.rv.op == "bin" and str(st.rv.a).startswith("Add")]
+    for cb in p.closures_of(sb):
+        plus += [1 for bi in range(len(cb.blocks)) for st in cb.stmts(bi) if st.kind == "a" and st.rv.op == "bin" and str(st.rv.a).startswith("Add")]
+        adds += [c for bi, c in cb.calls() if c.callee and ("checked_add" in c.callee.name or "saturating_add" in c.callee.name)]
+    ctx.ob("R6.4", bool(adds or plus), f"{sb.name}/adds-parts", "summarize_payments no longer adds the HTLCs of one payment hash",
+           where=f"{sb.file}:{sb.line}", sample="sum per payment hash")
